@@ -276,6 +276,15 @@ def main():
             g = fem.Field(region, dim=2, values=vals).grad()        # (2, 2, q, c)
             u = fem.Field(region, dim=2, values=vals).interpolate()
             xq = quad_points(region, mesh)
+            # second derivatives of the 2-d field kinds: in-plane block = the plain field's hessian, padded with zeros
+            rh = fem.RegionQuad(mesh, hess=True)
+            fh = cls(rh, dim=2, values=vals)
+            if hasattr(fh, "hess"):
+                H3 = np.asarray(fh.hess(), float)                                   # (3, 3, 3, q, c) for plane strain
+                H2 = np.asarray(fem.Field(rh, dim=2, values=vals).hess(), float)    # (2, 2, 2, q, c)
+                out.write({"id": rid + "-hess", "kind": "hesspad", "nt": True, "d3": int(H3.shape[0]),
+                           "H3": [q(v, S) for v in np.moveaxis(H3.reshape(-1, *H3.shape[-2:]), 0, -1).reshape(-1, H3.shape[0] ** 3)],
+                           "H2": [q(v, S) for v in np.moveaxis(H2.reshape(-1, *H2.shape[-2:]), 0, -1).reshape(-1, 8)]})
             out.write({"id": rid, "kind": kindname, "nt": True, "dim": 2,
                        "F": [q(v, S) for v in np.transpose(F, (3, 2, 0, 1)).reshape(-1, 9)],
                        "gradu": [q(v, S) for v in np.transpose(g, (3, 2, 0, 1)).reshape(-1, 4)],
